@@ -114,6 +114,27 @@ def rows(ctx: Ctx):
             if n >= 2 and sname != "aug":
                 ss[1] = ss[0]                       # the same signature more than once
             run("Aggregate", sname, 0, b"", ss, lambda: S.Aggregate(ss))
+    # Aggregate does not check the subgroup: encodings of twist points whose y has a zero real or imaginary part
+    # (x in Fp) take the other branch of the sign rule; one of them alone must come back unchanged
+    for s_ in special_sigs(rng, 3 if quick else 12):
+        for ss in ([s_], [s_, s_], [s_, rng.choice(allsigs)]):
+            run("Aggregate", "basic", 0, b"", ss, lambda: suites["basic"].Aggregate(ss))
+    return out
+
+
+def special_sigs(rng, count):
+    """96-byte encodings (made by the library's own G2_to_signature) of points of E'(Fp2) with x in Fp, hence y
+    real or purely imaginary.  Input generation only."""
+    from py_ecc import optimized_bls12_381 as ob
+    from .grouptrace import real_y_twist_points
+    p = ob.field_modulus
+    out = []
+    for x, y in real_y_twist_points(p, rng, count):
+        # written out from the ZCash rule (not with the library's encoder): compression flag, sign of the
+        # lexicographically larger y - imaginary part first, the real part when the imaginary part is zero
+        for yy in (y, ((-y[0]) % p, (-y[1]) % p)):
+            a = 1 if (yy[1] > (p - 1) // 2 or (yy[1] == 0 and yy[0] > (p - 1) // 2)) else 0
+            out.append(((1 << 383) | (a << 381) | x[1]).to_bytes(48, "big") + x[0].to_bytes(48, "big"))
     return out
 
 
